@@ -1,5 +1,11 @@
 package main
 
+import (
+	"fmt"
+	"os"
+	"strings"
+)
+
 // solverFeasible asks the solver whether the path condition is satisfiable (used in
 // rank-bounded mode to cut infeasible paths early; "unknown" counts as feasible).
 func (x *Exec) solverFeasible(st *State) bool {
@@ -7,7 +13,12 @@ func (x *Exec) solverFeasible(st *State) bool {
 		return true
 	}
 	o := &Obligation{Hyps: st.pc, Goal: TFalse, decls: x.decls, prog: x}
-	r, _ := x.solv.SolveCached(o.BuildQuery())
+	q := o.BuildQuery()
+	r, _ := x.solv.SolveCached(q)
+	if r.Result == "unsat" && traceForks {
+		os.WriteFile(fmt.Sprintf("/tmp/pruned_%d.smt2", len(st.pc)), []byte("(set-logic ALL)\n"+q+"(check-sat)\n"), 0o644)
+		fmt.Fprintf(os.Stderr, "pruned path (pc %d): %s\n", len(st.pc), strings.Join(st.path, ">"))
+	}
 	return r.Result != "unsat"
 }
 
